@@ -923,6 +923,11 @@ def gen_c13(rng, tier):
         if state == "verified":
             ops += ["A:x", "P:x:2.9:false:-"]
         mk(cases, "robust", ops, {"state": state})
+    # directed: steps and methods no handler has a name for, on both pairing endpoints (the accessory must answer and stay up)
+    ops = ["N:h", "S:h:c0:ok", "N:x", "S:x:e1:badstep", "S:x:e1:badmethod", "B:x:ps:060107", "B:x:ps:0601ff", "B:x:pv:060105", "B:x:pv:060109", "B:x:pv:0601ff",
+           "B:x:pairings:060109", "S:x:n1:ok", "S:x:n1:ok", "ST", "V:x:c0:ok", "V:x:c0:ok", "G:x:2.9",
+           "N:y", "S:y:n2:ok", "N:z", "V:z:n2:ok", "G:z:2.9", "A:z", "P:z:2.9:true:-", "ST"]
+    mk(cases, "robust", ops, {"state": "fresh"})
     # directed: pair-verify starts whose public key is a point of small order; pair-setup exchanges abandoned half way
     # (connection closed after M2 / after M4) must not keep anybody else from pairing
     ops = ["N:h", "S:h:c0:ok", "N:x"] + ["V:x:c0:%s" % v for v in ["startzerokeep", "startlow1", "startlow2", "startlow3", "startlow4", "startlow5", "startlow6"]]
